@@ -138,6 +138,24 @@ theorem closed_stays_failed (o : OpSpec) (v : Nat) (topic : Bytes) (c : Conn) (h
     (connDo o v topic c).1.isFail = true ∧ (connDo o v topic c).2 = c := by
   unfold connDo; simp [h, Outcome.isFail]
 
+/-- a response nobody asked for (foreign correlation id at the head of the stream, one waiter): io.ErrNoProgress AND the
+Conn is closed (fix C11-D30) — so by `closed_stays_failed` every later operation fails, whatever ids it uses; before
+the fix a later request whose id happened to equal the stale frame's took it for its own response. -/
+theorem desync_closes (o : OpSpec) (v : Nat) (topic : Bytes) (c : Conn) (hopen : c.closed = false)
+    (hlen : 8 ≤ c.stream.length) (hid : beInt ((c.stream.drop 4).take 4) ≠ c.nextId) :
+    (connDo o v topic c).1.isFail = true ∧ (connDo o v topic c).2.closed = true ∧
+    ∀ o₂ v₂, (connDo o₂ v₂ topic (connDo o v topic c).2).1.isFail = true := by
+  have hw : waitResponse c = .error (.other "io.ErrNoProgress") := by
+    unfold waitResponse
+    have : ¬ c.stream.length < 8 := by omega
+    simp [this, hid]
+  have h1 : connDo o v topic c = (.fail (.other "io.ErrNoProgress"), { c with nextId := c.nextId + 1, closed := true }) := by
+    unfold connDo
+    simp [hopen, hw]
+  rw [h1]
+  refine ⟨rfl, rfl, fun o₂ v₂ => ?_⟩
+  exact (closed_stays_failed o₂ v₂ topic _ rfl).1
+
 theorem closed_stays_failed_fetch (fixed : Bool) (v : Nat) (off : Int) (b : Body) (c : Conn) (h : c.closed = true) :
     (connFetch fixed v off b c).1.isFail = true ∧ (connFetch fixed v off b c).2 = c := by
   unfold connFetch; simp [h, Outcome.isFail]
@@ -469,23 +487,23 @@ theorem lock_released_on_every_path (lf : LockFacts) (h : lf.all = true) (inflig
     (connDoL lf inflight o v topic (c, false)).2.2 = false ∧
     (inflight = false → (connDoL lf inflight o v topic (c, false)).1 = (connDo o v topic c).1 ∧
                         (connDoL lf inflight o v topic (c, false)).2.1 = (connDo o v topic c).2) := by
-  have hh : lf.peekErr = true ∧ lf.noProgress = true ∧ lf.yield = true ∧ lf.take = true ∧ lf.leave = true ∧ lf.doBody = true ∧
+  have hh : lf.peekErr = true ∧ lf.noProgress = true ∧ lf.desyncCloses = true ∧ lf.yield = true ∧ lf.take = true ∧ lf.leave = true ∧ lf.doBody = true ∧
       lf.apiVersions = true ∧ lf.batchHandover = true ∧ lf.batchClose = true := by
     simpa [LockFacts.all, and_assoc] using h
-  obtain ⟨h1, h2, _, h4, hl, h5, h6, _, _⟩ := hh
+  obtain ⟨h1, h2, hd, _, h4, hl, h5, h6, _, _⟩ := hh
   have hrel : ∀ p, released lf o.closeOnErr p = true := by
     intro p; cases p <;> simp [released, h1, h2, h4, h5, h6, hl]
   refine ⟨by simp [connDoL, hrel], ?_⟩
   intro hi
   subst hi
-  simp [connDoL]
+  simp [connDoL, hd]
 
 theorem lock_released_fetch (lf : LockFacts) (h : lf.all = true) (fixed : Bool) (v : Nat) (off : Int) (b : Body) (c : Conn) :
     (connFetchL lf fixed v off b (c, false)).2.2 = false := by
-  have hh : lf.peekErr = true ∧ lf.noProgress = true ∧ lf.yield = true ∧ lf.take = true ∧ lf.leave = true ∧ lf.doBody = true ∧
+  have hh : lf.peekErr = true ∧ lf.noProgress = true ∧ lf.desyncCloses = true ∧ lf.yield = true ∧ lf.take = true ∧ lf.leave = true ∧ lf.doBody = true ∧
       lf.apiVersions = true ∧ lf.batchHandover = true ∧ lf.batchClose = true := by
     simpa [LockFacts.all, and_assoc] using h
-  obtain ⟨h1, h2, _, h4, hl, h5, _, h7, h8⟩ := hh
+  obtain ⟨h1, h2, _, _, h4, hl, h5, _, h7, h8⟩ := hh
   unfold connFetchL
   simp only [Bool.false_and, Bool.false_eq_true, ↓reduceIte, Bool.false_or, Bool.not_eq_eq_eq_not, Bool.not_false]
   cases exitPath false c <;> simp [released, h1, h2, h4, h5, h7, h8, hl]
